@@ -67,6 +67,7 @@ type streamCase struct {
 	LongLine    bool                `json:"long_line,omitempty"`
 	Fat         bool                `json:"fat,omitempty"`
 	Big         bool                `json:"big,omitempty"`
+	Ending      bool                `json:"ending,omitempty"`               // blank / white-space lines after the last target
 	Faults      []string            `json:"faulty_request_lines,omitempty"` // http: request lines that are no target (one error each)
 	Sched       []int               `json:"-"`
 	panicked    bool                // a direct call panicked in runStream
@@ -269,6 +270,11 @@ func genStreamCase(r *kit.Rng, format, work string, id int) streamCase {
 	sc.Src = sb.String()
 	if format == "http" && r.Chance(0.3) {
 		sc.Src = strings.TrimSuffix(sc.Src, "\n") // the http format delivers an unterminated last line
+	} else if r.Chance(0.5) {
+		// the end of the stream: blank lines, CRLF blank lines, a last line of spaces or tabs (with
+		// and without a newline of its own) after the last target
+		sc.Src += r.PickStr([]string{"\n", "\n\n\n", "\r\n", "\r\n\r\n", "   ", "\t", " \t \n", "\n  \t", "\n \n\t\n", "\r\n \r\n"})
+		sc.Ending = true
 	}
 	sc.Callers = 1 + r.Pick(64)
 	if id%8 < 2 {
@@ -445,6 +451,9 @@ func runStream(s *kit.Summary, sc *streamCase) (implLine string) {
 	}
 	if sc.LongLine {
 		s.Count(sc.Format + ":line>4096")
+	}
+	if sc.Ending {
+		s.Count(sc.Format + ":blank_or_space_lines_after_last_target")
 	}
 	if sc.Fat {
 		s.Count(sc.Format + ":fat_round")
